@@ -25,6 +25,7 @@ let parse_op (op : string) : pop =
   let i = int_of_string in
   match fields op with
   | "I" :: n :: seed :: _ -> PInsert (row_bytes (i n) (i seed))
+  | "J" :: slot :: n :: seed :: _ -> PInsertAt (n_of_int (i slot), row_bytes (i n) (i seed))
   | "U" :: slot :: n :: seed :: rb :: _ -> PUpdate (n_of_int (i slot), row_bytes (i n) (i seed), rb = "1")
   | "M" :: slot :: _ -> PMark (n_of_int (i slot))
   | "A" :: slot :: _ -> PApply (n_of_int (i slot))
